@@ -2,7 +2,8 @@
 import re
 
 from .. import lib, mir
-from ..mir import render, strip_generics
+from .. import lib_proto as P
+from ..mir import strip_generics
 
 EXPLANATION = ("Behaviour::on_connection_handler_event. Reservations: the only admission-time store of Reservation::Active is dominated by the "
                "false edge of `sum(active per peer) >= max_reservations` and by either `renewed` or the false edge of `active(event_source) "
@@ -21,13 +22,16 @@ ASSUMPTIONS = ["the handler reports ReservationReqAccepted / CircuitReqAccepted 
                "rate limiters (C48) only ever deny", "HashMap semantics"]
 RL = "libp2p_relay"
 H = r"<behaviour::Behaviour as libp2p_swarm::NetworkBehaviour>::on_connection_handler_event$"
-ARM = r"^discr\(event@Left\.0\)$"
+BADT = r"^libp2p_relay::behaviour::Behaviour$"
+TADT = r"^libp2p_relay::behaviour::CircuitsTracker$"
+ACTIVE = "libp2p_relay::behaviour::Reservation::Active{}"
+NONE_ = "libp2p_relay::behaviour::Reservation::None{}"
 
 SELFTEST = [
     {"mutation": "seeded/C47: eager `insert(connection, Reservation::Active)` removed from the accept branch", "caught_by": "reservation/accept => recorded as Active in the same invocation"},
     {"mutation": "per-peer reservation guard `>` (the tree before the F12 fix 921088d)", "caught_by": "reservation/new reservation only below max_reservations_per_peer"},
-    {"mutation": "circuit per-peer guard `>` (the tree before the F12 fix)", "caught_by": "circuit/src_peer_id below max_circuits_per_peer"},
-    {"mutation": "destination guard missing (the tree before the F12 fix) / applied to event_source twice", "caught_by": "circuit/dst_peer_id below max_circuits_per_peer"},
+    {"mutation": "circuit per-peer guard `>` (the tree before the F12 fix)", "caught_by": "circuit/requester below max_circuits_per_peer"},
+    {"mutation": "destination guard missing (the tree before the F12 fix) / applied to event_source twice", "caught_by": "circuit/destination below max_circuits_per_peer"},
     {"mutation": "`(renewed && count >= max)` instead of `(!renewed && ..)`", "caught_by": "reservation/new reservation only below max_reservations_per_peer"},
     {"mutation": "total circuits guard `>`", "caught_by": "circuit/total below max_circuits"},
     {"mutation": "total reservations compared with max_reservations_per_peer * 1000", "caught_by": "reservation/total below max_reservations"},
@@ -38,10 +42,6 @@ SELFTEST = [
     {"mutation": "CircuitsTracker::insert: next_id + 0", "caught_by": "counter/circuit ids are fresh (no tracked circuit is overwritten)"},
     {"mutation": "remove_by_connection: `is_src && is_dst`", "caught_by": "untrack/remove_by_connection keeps a circuit only if neither end is the closed connection"},
 ]
-
-
-def ret_exprs(b):
-    return [(mir.Site(b, d[1], d[2]), b.site_expr(mir.Site(b, d[1], d[2]))) for d in b.defs.get(0, [])]
 
 
 def root_local(b, o, depth=0):
@@ -59,32 +59,45 @@ def arm_of(h, entries, bb):
     return sorted(a for a, t in entries.items() if bb in h.reachable([t]))
 
 
+def in_variants(e, adt, variant):
+    return [x for x in mir.walk(e) if x[0] == "agg" and x[1] == "adt" and strip_generics(x[2]) == adt and x[3] == variant]
+
+
 def check(ctx):
-    mir.RENDER_MAX[0] = 30
-    try:
-        _check(ctx, ctx.prog)
-    finally:
-        mir.RENDER_MAX[0] = 14
+    _check(ctx, ctx.prog)
 
 
 def _check(ctx, prog):
+    F_CONN = P.field_by_type(prog, RL, BADT, r"^std::collections::HashMap<libp2p_core::PeerId, std::collections::HashMap<")   # connections
+    F_CIRC = P.field_by_type(prog, RL, BADT, r"CircuitsTracker$")
+    F_CFG = P.field_by_type(prog, RL, BADT, r"^behaviour::Config$")
+    T_MAP = P.field_by_type(prog, RL, TADT, r"^std::collections::HashMap<")
+    T_NEXT = P.field_by_type(prog, RL, TADT, r"CircuitId$")
+    CONN, CIRC, CFG = "self." + F_CONN, "self." + F_CIRC, "self." + F_CFG
+    # on_connection_handler_event(self, event_source = $2, connection = $3, event = $4)
     h = ctx.body(RL, H)
+    N = P.Norm(h)
     rets = h.return_blocks()
     entries = {}
     for bi in h.live:
         info = h.switch_info(bi)
-        if info and re.search(ARM, render(info[0])):
+        if info and N.r(info[0]) == "discr($4@Left)":
             for tgt, ls in info[1].items():
                 for l in ls:
                     entries[l] = tgt
     ctx.ob("arms", "floor:handler::Event arms", len(entries) >= 14, nontrivial=False, msg=str(sorted(entries)))
+    IN = "libp2p_relay::behaviour::handler::In"
+
+    def in_sites(variant, region):
+        return [s for s in h.agg_sites(r"^libp2p_relay::behaviour::handler::In$", variant) if s.bb in region]
 
     # ================================================================= reservations
     act = []
     for b in prog.bodies(RL):
+        BN = P.Norm(b)
         for s in b.call_sites(r"HashMap::insert$"):
             e = b.site_expr(s)
-            if len(e[2]) == 3 and render(e[2][2]) == "libp2p_relay::behaviour::Reservation::Active{}":
+            if len(e[2]) == 3 and BN.r(e[2][2]) == ACTIVE:
                 act.append(s)
     ctx.floor("reservation", "stores of Reservation::Active", act, 2)
     where = sorted((s.body.npath, tuple(arm_of(h, entries, s.bb)) if s.body is h else ()) for s in act)
@@ -92,58 +105,73 @@ def _check(ctx, prog):
            where == [(h.npath, ("ReservationReqAccepted",)), (h.npath, ("ReservationReqReceived",))], msg=str(where))
     adm = [s for s in act if s.body is h and arm_of(h, entries, s.bb) == ["ReservationReqReceived"]]
     ent = entries.get("ReservationReqReceived")
-    PEER_CNT = r"^std::option::Option::unwrap_or\(std::option::Option::map\(std::collections::HashMap::get\(self\.connections, event_source\), closure:[^\[]*\[\]\), 0\)$"
-    TOT_CNT = r"^std::iter::Iterator::sum\(std::iter::Iterator::map\(std::collections::HashMap::values\(self\.connections\), closure:[^\[]*\[\]\)\)$"
+    PEER_CNT = "std::option::Option::unwrap_or(std::option::Option::map(std::collections::HashMap::get(%s, $2), closure[]), 0)" % CONN
+    TOT_CNT = "std::iter::Iterator::sum(std::iter::Iterator::map(std::collections::HashMap::values(%s), closure[]))" % CONN
+
+    def strict(count, limit):
+        return P.rel_edges(h, lambda op, a, b: op == "Lt" and N.r(a) == count and N.r(b) == limit)
+
+    def weak(count, limit):
+        return P.rel_edges(h, lambda op, a, b: op == "Le" and N.r(a) == count and N.r(b) == limit)
+
+    def limit_ob(rule, inst, s, count, limit, desc, extra=(), start=0):
+        good, wk = strict(count, limit), weak(count, limit)
+        ok = bool(good) and h.must_pass_edges(s.bb, set(good) | set(extra), start)
+        msg = "bounded: " + desc
+        if not ok:
+            msg = "not bounded: " + desc
+            if wk and h.must_pass_edges(s.bb, set(good) | set(wk) | set(extra), start):
+                msg += " — only a non-strict guard (`count <= limit`) protects this site, which admits limit + 1"
+        ctx.ob(rule, inst, ok, s.loc(), msg)
     for s in adm:
         e = h.site_expr(s)
-        ctx.ob("reservation", "admission is recorded for the requesting peer and connection", render(e[2][0]) == "std::collections::hash_map::Entry::or_default(std::collections::HashMap::entry(self.connections, event_source))" and
-               render(e[2][1]) == "connection", s.loc(), render(e)[:200])
-        lib.limit_guard(ctx, "reservation", "total below max_reservations", s, TOT_CNT, r"^self\.config\.max_reservations$",
-                        "sum of active reservations < max_reservations")
-        good, weak = lib.strict_limit_edges(h, PEER_CNT, r"^self\.config\.max_reservations_per_peer$")
-        ren = lib.switch_edges_on(h, r"^event@Left\.0@ReservationReqReceived\.renewed$", {"true"})
+        ctx.ob("reservation", "admission is recorded for the requesting peer and connection", N.r(e[2][0]) in ("std::collections::hash_map::Entry::or_default(std::collections::HashMap::entry(%s, $2))" % CONN,
+                                                                                                         "std::collections::HashMap::get_mut(%s, $2)@+" % CONN) and N.r(e[2][1]) == "$3", s.loc(), N.r(e)[:200])
+        limit_ob("reservation", "total below max_reservations", s, TOT_CNT, CFG + ".max_reservations", "sum of active reservations < max_reservations", start=ent or 0)
+        ren = P.truth_edges(h, lambda y: N.r(y) == "$4@Left@ReservationReqReceived.renewed", True)
+        good = strict(PEER_CNT, CFG + ".max_reservations_per_peer")
+        wk = weak(PEER_CNT, CFG + ".max_reservations_per_peer")
         ok = bool(good) and bool(ren) and h.must_pass_edges(s.bb, set(good) | set(ren), ent)
         msg = "every path to the store is a renewal or passes `active(event_source) < max_reservations_per_peer`"
         if not ok:
             msg = "a new reservation is admitted without a strict per-peer guard"
-            if weak and h.must_pass_edges(s.bb, set(good) | set(weak) | set(ren), ent):
-                msg += " — only `count > max_reservations_per_peer` protects it, which admits max + 1"
+            if wk and h.must_pass_edges(s.bb, set(good) | set(wk) | set(ren), ent):
+                msg += " — only `count <= max_reservations_per_peer` protects it, which admits max + 1"
         ctx.ob("reservation", "new reservation only below max_reservations_per_peer", ok, s.loc(), msg)
     # counter definitions
-    for bi in h.live:
+    seen_cnt = set()
+    for bi in sorted(h.live):
         info = h.switch_info(bi)
-        if not info or info[0][0] != "bin":
+        c = P.cmpnf(info[0]) if info else None
+        if not c:
             continue
-        for side in (info[0][2], info[0][3]):
-            r = render(side)
-            which = "per-peer" if re.search(PEER_CNT, r) else ("total" if re.search(TOT_CNT, r) else None)
-            if which is None:
+        for side in (c[1], c[2]):
+            r = N.r(side)
+            which = "per-peer" if r == PEER_CNT else ("total" if r == TOT_CNT else None)
+            if which is None or which in seen_cnt:
                 continue
-            cl = lib.closure_of(prog, h, side)
+            seen_cnt.add(which)
+            cs = P.closures_in(prog, h, side)
             ok = False
             txt = ""
-            if cl is not None:
+            if cs:
+                cl = cs[0][1]
                 ctx.use(cl)
-                rs = ret_exprs(cl)
-                txt = render(rs[0][1]) if len(rs) == 1 else ""
-                ok = re.match(r"^<std::iter::Filter as std::iter::Iterator>::count\(std::iter::Iterator::filter\(std::collections::HashMap::values\(cs\), closure:", txt) is not None
-                inner = lib.closure_of(prog, cl, rs[0][1]) if ok else None
-                if inner is not None:
-                    ctx.use(inner)
-                    ir = [render(x) for _, x in ret_exprs(inner)]
-                    ok = ir == ["libp2p_relay::behaviour::Reservation::is_active(status)"]
-                    txt += " / " + str(ir)
-                else:
-                    ok = False
+                rs = P.ret_exprs(cl)
+                txt = P.Norm(cl).r(rs[0][1]) if len(rs) == 1 else ""
+                ok = txt == "<std::iter::Filter as std::iter::Iterator>::count(std::iter::Iterator::filter(std::collections::HashMap::values($2), closure[]))"
+                inner = P.closures_in(prog, cl, rs[0][1]) if ok else []
+                ir = [P.Norm(ic).r(x) for _, ic in inner[:1] for _, x in P.ret_exprs(ic)]
+                ok = ok and ir == ["libp2p_relay::behaviour::Reservation::is_active($2)"]
+                txt += " / " + str(ir)
             ctx.ob("counter", "%s reservation count = number of active entries" % which, ok, "%s:%d" % (h.file, h.blocks[bi]["term"].get("l", 0)), txt[:220])
+    ctx.ob("counter", "floor:reservation counters", seen_cnt == {"per-peer", "total"}, nontrivial=False, msg=str(sorted(seen_cnt)))
     ia = ctx.body(RL, r"^libp2p_relay::behaviour::Reservation::is_active$")
-    r = [render(x) for _, x in ret_exprs(ia)]
-    ctx.ob("counter", "is_active <=> Active", r == ["libp2p_relay::<behaviour::Reservation as std::cmp::PartialEq>::eq(self, libp2p_relay::behaviour::Reservation::Active{})"], "%s:%d" % (ia.file, ia.line), str(r))
-    # accept => recorded ; deny => not recorded
+    r = [P.Norm(ia).r(x) for _, x in P.ret_exprs(ia)]
+    ctx.ob("counter", "is_active <=> Active", r in (["Eq(%s, self)" % ACTIVE], ["Eq(self, %s)" % ACTIVE]) or (len(r) == 1 and r[0].startswith("Eq(") and ACTIVE in r[0] and "self" in r[0]), "%s:%d" % (ia.file, ia.line), str(r))
     if ent is not None:
         region = h.reachable([ent])
-        acc = [s for s in h.agg_sites(r"^libp2p_relay::behaviour::handler::In$", "AcceptReservationReq") if s.bb in region]
-        den = [s for s in h.agg_sites(r"^libp2p_relay::behaviour::handler::In$", "DenyReservationReq") if s.bb in region]
+        acc, den = in_sites("AcceptReservationReq", region), in_sites("DenyReservationReq", region)
         ctx.floor("reservation", "In::AcceptReservationReq", acc, 1)
         ctx.floor("reservation", "In::DenyReservationReq", den, 1)
         for s in acc:
@@ -160,69 +188,74 @@ def _check(ctx, prog):
     ctx.ob("circuit", "circuits are created only when a circuit request is admitted", all(s.body is h and arm_of(h, entries, s.bb) == ["CircuitReqReceived"] for s in ins),
            msg=str([(s.body.short, arm_of(h, entries, s.bb) if s.body is h else None) for s in ins]))
     cent = entries.get("CircuitReqReceived")
+    cadt = prog.adt(RL, r"^libp2p_relay::behaviour::Circuit$")
+    peer_fields = [f["n"] for v in cadt["variants"] for f in v["fields"] if f["ty"] == "libp2p_core::PeerId"]
+    conn_fields = [f["n"] for v in cadt["variants"] for f in v["fields"] if f["ty"] == "libp2p_swarm::ConnectionId"]
+    ROLE = {}
     for s in ins:
         if s.body is not h:
             continue
         c = h.site_expr(s)[2][1]
         f = dict(c[4]) if c[0] == "agg" else {}
-        ctx.ob("circuit", "the tracked circuit names the requester and its connection", render(f.get("src_peer_id", ("unknown", "?"))) == "event_source" and
-               render(f.get("src_connection_id", ("unknown", "?"))) == "connection", s.loc(), render(c)[:200])
-        lib.limit_guard(ctx, "circuit", "total below max_circuits", s, r"^libp2p_relay::behaviour::CircuitsTracker::len\(self\.circuits\)$", r"^self\.config\.max_circuits$", "circuits.len() < max_circuits")
-        for role in ("src_peer_id", "dst_peer_id"):
-            p = f.get(role)
-            if p is None:
-                ctx.ob("circuit", "%s below max_circuits_per_peer" % role, False, s.loc(), "field not found")
-                continue
-            lib.limit_guard(ctx, "circuit", "%s below max_circuits_per_peer" % role, s,
-                            r"^libp2p_relay::behaviour::CircuitsTracker::num_circuits_of_peer\(self\.circuits, %s\)$" % re.escape(render(p)), r"^self\.config\.max_circuits_per_peer$",
-                            "num_circuits_of_peer(%s) < max_circuits_per_peer (the counter counts both roles, so both ends must be below the limit)" % render(p)[-60:])
+        vals = {k: N.r(v) for k, v in f.items()}
+        srcp = [k for k in peer_fields if vals.get(k) == "$2"]
+        srcc = [k for k in conn_fields if vals.get(k) == "$3"]
+        ctx.ob("circuit", "the tracked circuit names the requester and its connection", len(srcp) == 1 and len(srcc) == 1 and len(peer_fields) == 2 and len(conn_fields) == 2, s.loc(), str(vals)[:200])
+        if len(srcp) == 1 and len(srcc) == 1 and len(peer_fields) == 2 and len(conn_fields) == 2:
+            ROLE = {"srcp": srcp[0], "srcc": srcc[0], "dstp": [k for k in peer_fields if k != srcp[0]][0], "dstc": [k for k in conn_fields if k != srcc[0]][0]}
+        limit_ob("circuit", "total below max_circuits", s, "libp2p_relay::behaviour::CircuitsTracker::len(%s)" % CIRC, CFG + ".max_circuits", "circuits.len() < max_circuits", start=cent or 0)
+        for k in peer_fields:
+            role = "requester" if vals.get(k) == "$2" else "destination"
+            limit_ob("circuit", "%s below max_circuits_per_peer" % role, s, "libp2p_relay::behaviour::CircuitsTracker::num_circuits_of_peer(%s, %s)" % (CIRC, vals.get(k)), CFG + ".max_circuits_per_peer",
+                     "num_circuits_of_peer(%s) < max_circuits_per_peer (the counter counts both roles, so both ends must be below the limit)" % str(vals.get(k))[-60:], start=cent or 0)
     if cent is not None:
         region = h.reachable([cent])
-        neg = [s for s in h.agg_sites(r"^libp2p_relay::behaviour::handler::In$", "NegotiateOutboundConnect") if s.bb in region]
-        den = [s for s in h.agg_sites(r"^libp2p_relay::behaviour::handler::In$", "DenyCircuitReq") if s.bb in region]
+        neg, den = in_sites("NegotiateOutboundConnect", region), in_sites("DenyCircuitReq", region)
         ctx.floor("circuit", "In::NegotiateOutboundConnect", neg, 1)
         ctx.floor("circuit", "In::DenyCircuitReq in the request arm", den, 2)
         mine = lib.bbs([s for s in ins if s.body is h])
         for s in neg:
             got = lib.count_range(h, [cent], [s.bb], mine)
             ctx.ob("circuit", "accept => tracked in the same invocation", got == (1, 1), s.loc(), "CircuitsTracker::insert on every path to In::NegotiateOutboundConnect: %s" % (got,))
-            r = render(h.site_expr(s))
-            ctx.ob("circuit", "the negotiated circuit is the tracked one", "circuit_id: libp2p_relay::behaviour::CircuitsTracker::insert(self.circuits," in r, s.loc(), r[:160])
+            f = dict(h.site_expr(s)[4])
+            cid = f.get("circuit_id")
+            ctx.ob("circuit", "the negotiated circuit is the tracked one", cid is not None and cid[0] == "call" and cid[3] in mine, s.loc(), N.r(cid)[:120] if cid else "")
         for s in den:
             got = lib.count_range(h, [cent], [s.bb], mine)
             ctx.ob("circuit", "deny => not tracked", got == (0, 0), s.loc(), "inserts on paths to In::DenyCircuitReq: %s" % (got,))
-    # tracker definitions
+    # ---- tracker definitions
     tl = ctx.body(RL, r"^libp2p_relay::behaviour::CircuitsTracker::len$")
-    r = [render(x) for _, x in ret_exprs(tl)]
-    ctx.ob("counter", "CircuitsTracker::len = circuits.len()", r == ["std::collections::HashMap::len(self.circuits)"], "%s:%d" % (tl.file, tl.line), str(r))
+    r = [P.Norm(tl).r(x) for _, x in P.ret_exprs(tl)]
+    ctx.ob("counter", "CircuitsTracker::len = circuits.len()", r == ["std::collections::HashMap::len(self.%s)" % T_MAP], "%s:%d" % (tl.file, tl.line), str(r))
     nc = ctx.body(RL, r"^libp2p_relay::behaviour::CircuitsTracker::num_circuits_of_peer$")
-    rs = ret_exprs(nc)
-    ok = len(rs) == 1 and re.match(r"^<std::iter::Filter as std::iter::Iterator>::count\(std::iter::Iterator::filter\(std::collections::HashMap::iter\(self\.circuits\), closure:[^\[]*\[peer\]\)\)$", render(rs[0][1])) is not None
-    cl = lib.closure_of(prog, nc, rs[0][1]) if ok else None
+    rs = P.ret_exprs(nc)
+    ok = len(rs) == 1 and P.Norm(nc).r(rs[0][1]) == "<std::iter::Filter as std::iter::Iterator>::count(std::iter::Iterator::filter(std::collections::HashMap::iter(self.%s), closure[$2]))" % T_MAP
     leaves = []
-    if cl is not None:
+    if ok:
+        cl = P.closures_in(prog, nc, rs[0][1])[0][1]
         ctx.use(cl)
-        # value of the closure: `src == peer || dst == peer` lowers to: switch(eq(src)) true -> const true, false -> eq(dst)
-        rr = ret_exprs(cl)
-        conds = [render(cl.switch_info(bi)[0]) for bi in cl.live if cl.switch_info(bi)]
-        vals = sorted(render(x) for _, x in rr)
-        both = {"src_peer_id", "dst_peer_id"}
+        # value of the closure: `src == peer || dst == peer`: collect every equality test / result and which field it compares with the captured peer
         seen = set()
-        for t in conds + vals:
-            m = re.match(r"^<libp2p_core::PeerId as std::cmp::PartialEq>::eq\(arg2\.1\.(src_peer_id|dst_peer_id), \^peer\)$", t)
-            if m:
-                seen.add(m.group(1))
-        consts = [x for _, x in rr if x[0] == "const"]
-        ok = seen == both and all(x[1] == 1 for x in consts) and len(conds) == 1
-        for s_, x in rr:
-            if x[0] == "const" and x[1] == 1:
-                ok = ok and bool(cl.guards_on_all_paths(s_.bb)) and all(lbl == frozenset({"true"}) for _, lbl, _, _ in cl.guards_on_all_paths(s_.bb))
-        leaves = conds + vals
+        exprs = [x for _, x in P.ret_exprs(cl)] + [cl.switch_info(bi)[0] for bi in cl.live if cl.switch_info(bi)]
+        for x in exprs:
+            c = P.cmpnf(x)
+            if c and c[0] == "Eq":
+                for a_, b_ in ((c[1], c[2]), (c[2], c[1])):
+                    if a_[0] == "field" and P.Norm(cl).r(b_) == "^0":
+                        seen.add(a_[2])
+            leaves.append(P.Norm(cl).r(x))
+        consts = [x for _, x in P.ret_exprs(cl) if P.const_val(x) is not None]
+        ok = seen == set(peer_fields) and all(P.const_val(x) == 1 for x in consts)
+        for s_, x in P.ret_exprs(cl):
+            if P.const_val(x) == 1:
+                te = P.rel_edges(cl, lambda op, a_, b_: op == "Eq")
+                ok = ok and P.must_pass(cl, s_.bb, te)
     ctx.ob("counter", "num_circuits_of_peer counts both roles", bool(ok), "%s:%d" % (nc.file, nc.line), str(leaves)[:260])
     ti = ctx.body(RL, r"^libp2p_relay::behaviour::CircuitsTracker::insert$")
-    wr = ti.field_write_sites("next_id")
-    mins = [s for s in ti.call_sites(r"HashMap::insert$") if render(ti.site_expr(s)[2][0]) == "self.circuits"]
-    ok = len(wr) == 1 and len(mins) == 1 and render(ti.site_expr(wr[0])) == "libp2p_relay::<behaviour::CircuitId as std::ops::Add>::add(self.next_id, 1)"
+    TI = P.Norm(ti)
+    wr = ti.field_write_sites(T_NEXT)
+    mins = [s for s in ti.call_sites(r"HashMap::insert$") if TI.r(ti.site_expr(s)[2][0]) == "self." + T_MAP]
+    ok = len(wr) == 1 and len(mins) == 1 and TI.site(wr[0]) in ("libp2p_relay::<behaviour::CircuitId as std::ops::Add>::add(self.%s, 1)" % T_NEXT, "AddWithOverflow(self.%s.0, 1).0" % T_NEXT)
     why = "next_id = next_id + 1; circuits.insert(id, circuit) with id copied before the increment"
     if ok:
         x = root_local(ti, mins[0].term["args"][1])
@@ -230,23 +263,21 @@ def _check(ctx, prog):
         ok = x is not None
         if ok:
             xd = ti.defs.get(x, [])
-            ok = len(xd) == 1 and xd[0][0] == "stmt" and render(ti.rvalue_expr(xd[0][3])) == "self.next_id" and \
+            ok = len(xd) == 1 and xd[0][0] == "stmt" and TI.r(ti.rvalue_expr(xd[0][3])) == "self." + T_NEXT and \
                 ((xd[0][1] == wr[0].bb and xd[0][2] < (wr[0].si if wr[0].si is not None else 10 ** 6)) or (xd[0][1] != wr[0].bb and ti.dominates(xd[0][1], wr[0].bb)))
             ok = ok and len(rd) == 1 and rd[0][0] == "stmt" and rd[0][3]["k"] == "use" and root_local(ti, rd[0][3]["o"]) == x
     ctx.ob("counter", "circuit ids are fresh (no tracked circuit is overwritten)", ok, "%s:%d" % (ti.file, ti.line), why)
     wh = set()
     for b in prog.bodies(RL):
-        for s in b.call_sites(r"HashMap::(insert|entry)$"):
-            if render(b.site_expr(s)[2][0]) == "self.circuits" and "CircuitsTracker" in b.npath:
-                wh.add(b.npath)
-        for s in lib.field_mut_calls(b, "circuits"):
-            if "behaviour::CircuitsTracker" in b.npath:
-                wh.add(b.npath + " via " + strip_generics(b.call_name(s.term)).split("::")[-1])
+        if "behaviour::CircuitsTracker" not in b.npath:
+            continue
+        for s in lib.field_mut_calls(b, T_MAP):
+            wh.add(b.npath)
     ctx.ob("counter", "the circuit map is mutated only by insert / accepted / remove / remove_by_connection",
-           {w.split(" via ")[0] for w in wh} <= {"libp2p_relay::behaviour::CircuitsTracker::" + n for n in ("insert", "accepted", "remove", "remove_by_connection")}, msg=str(sorted(wh)))
+           wh <= {"libp2p_relay::behaviour::CircuitsTracker::" + n for n in ("insert", "accepted", "remove", "remove_by_connection")} and len(wh) >= 3, msg=str(sorted(wh)))
     add = ctx.body(RL, r"^libp2p_relay::<behaviour::CircuitId as std::ops::Add>::add$")
-    r = [render(x) for _, x in ret_exprs(add)]
-    ctx.ob("counter", "CircuitId + n adds to the inner counter", len(r) == 1 and re.match(r"^libp2p_relay::behaviour::CircuitId::CircuitId\{0: AddWithOverflow\(self\.0, rhs\)\.0\}$", r[0]) is not None, "%s:%d" % (add.file, add.line), str(r))
+    r = [P.Norm(add).r(x) for _, x in P.ret_exprs(add)]
+    ctx.ob("counter", "CircuitId + n adds to the inner counter", r == ["libp2p_relay::behaviour::CircuitId::CircuitId{0: AddWithOverflow(self.0, $2).0}"], "%s:%d" % (add.file, add.line), str(r))
     # ================================================================= un-tracking only at the end of life
     rm = prog.callers(RL, r"^libp2p_relay::behaviour::CircuitsTracker::remove$")
     ctx.floor("untrack", "CircuitsTracker::remove call sites", rm, 4)
@@ -256,8 +287,8 @@ def _check(ctx, prog):
         ok = arms is not None and len(arms) == 1 and arms[0] in allowed
         ctx.ob("untrack", "circuits are un-tracked only when they ended", ok, s.loc(), "CircuitsTracker::remove in %s arm %s" % (s.body.short[-40:], arms))
         if ok:
-            a = render(h.site_expr(s)[2][1])
-            ctx.ob("untrack", "%s: the un-tracked circuit is the reported one" % arms[0], re.match(r"^event@Left\.0@%s\.circuit_id(@Some\.0)?$" % arms[0], a) is not None, s.loc(), a)
+            a = N.r(h.site_expr(s)[2][1])
+            ctx.ob("untrack", "%s: the un-tracked circuit is the reported one" % arms[0], re.match(r"^\$4@Left@%s\.circuit_id(@\+)?$" % arms[0], a) is not None, s.loc(), a)
     for arm in ("CircuitReqAcceptFailed", "CircuitClosed"):
         t = entries.get(arm)
         mine = [s.bb for s in rm if s.body is h and t is not None and s.bb in h.reachable([t])]
@@ -265,62 +296,94 @@ def _check(ctx, prog):
         ctx.ob("untrack", "%s: circuit removed on every path" % arm, got == (1, 1), msg="CircuitsTracker::remove in the arm: %s" % (got,))
     for arm in ("CircuitReqDenied", "CircuitReqDenyFailed"):
         t = entries.get(arm)
-        some = lib.switch_edges_on(h, r"^discr\(event@Left\.0@%s\.circuit_id\)$" % arm, {"Some"})
+        some = P.outcome_edges(h, lambda y, arm=arm: N.r(y) == "$4@Left@%s.circuit_id" % arm, True)
         mine = [s.bb for s in rm if s.body is h and t is not None and s.bb in h.reachable([t])]
-        got = lib.count_range(h, [x for _, x in some], rets, mine) if some else None
+        got = lib.count_range(h, P.targets(some), rets, mine) if some else None
         ctx.ob("untrack", "%s: a tracked circuit is removed on every path" % arm, got == (1, 1), msg="on the Some(circuit_id) edge: %s" % (got,))
     t = entries.get("OutboundConnectNegotiationFailed")
     if t is not None:
-        den = [s for s in h.agg_sites(r"^libp2p_relay::behaviour::handler::In$", "DenyCircuitReq") if s.bb in h.reachable([t])]
-        ok = len(den) == 1 and "circuit_id: std::option::Option::Some{0: event@Left.0@OutboundConnectNegotiationFailed.circuit_id}" in render(h.site_expr(den[0]))
-        ctx.ob("untrack", "a failed outbound negotiation hands the tracked id back for removal", ok, den[0].loc() if den else "", render(h.site_expr(den[0]))[:160] if den else "")
+        den = in_sites("DenyCircuitReq", h.reachable([t]))
+        ok = len(den) == 1 and N.r(dict(h.site_expr(den[0])[4]).get("circuit_id", ("unknown", "?"))) == "std::option::Option::Some{0: $4@Left@OutboundConnectNegotiationFailed.circuit_id}"
+        ctx.ob("untrack", "a failed outbound negotiation hands the tracked id back for removal", ok, den[0].loc() if den else "", N.r(h.site_expr(den[0]))[:160] if den else "")
     rbc = prog.callers(RL, r"^libp2p_relay::behaviour::CircuitsTracker::remove_by_connection$")
     cc = ctx.body(RL, r"^libp2p_relay::behaviour::Behaviour::on_connection_closed$")
+    CC = P.Norm(cc)
     ctx.ob("untrack", "remove_by_connection is used only on connection close", len(rbc) == 1 and rbc[0].body is cc and
-           render(cc.site_expr(rbc[0])) == "libp2p_relay::behaviour::CircuitsTracker::remove_by_connection(self.circuits, arg2.peer_id, arg2.connection_id)", rbc[0].loc() if rbc else "", "")
+           CC.site(rbc[0]) == "libp2p_relay::behaviour::CircuitsTracker::remove_by_connection(%s, $2.peer_id, $2.connection_id)" % CIRC, rbc[0].loc() if rbc else "", CC.site(rbc[0]) if rbc else "")
     if rbc:
         got = lib.count_range(cc, [0], cc.return_blocks(), [rbc[0].bb])
         ctx.ob("untrack", "a closed connection's circuits are removed on every path", got == (1, 1), rbc[0].loc(), str(got))
-    rb = ctx.body(RL, r"^libp2p_relay::behaviour::CircuitsTracker::remove_by_connection::\{closure#0\}$")
-    drops = [s for s, x in ret_exprs(rb) if x[0] == "const" and x[1] == 0]
-    keeps = [s for s, x in ret_exprs(rb) if x[0] == "const" and x[1] == 1]
-    flags = {}
-    for name in ("is_src", "is_dst"):
-        l = lib.local_by_name(rb, name)
-        flags[name] = sorted(render(rb.site_expr(mir.Site(rb, d[1], d[2]))) for d in rb.defs.get(l, []))
-    want = {"is_src": ["0", "<libp2p_swarm::ConnectionId as std::cmp::PartialEq>::eq(circuit.src_connection_id, ^connection_id)"],
-            "is_dst": ["0", "<libp2p_swarm::ConnectionId as std::cmp::PartialEq>::eq(circuit.dst_connection_id, ^connection_id)"]}
-    ok = flags == want and len(drops) == 1 and len(keeps) == 1
-    if ok:
-        e_keep = lib.switch_edges_on(rb, r"^is_src$", {"false"}) , lib.switch_edges_on(rb, r"^is_dst$", {"false"})
-        ok = all(e_keep) and rb.must_pass_edges(keeps[0].bb, e_keep[0]) and rb.must_pass_edges(keeps[0].bb, e_keep[1])
-    ctx.ob("untrack", "remove_by_connection keeps a circuit only if neither end is the closed connection", ok, "%s:%d" % (rb.file, rb.line), str(flags)[:200])
-    # reservations: removal sites
+    # remove_by_connection(self, peer_id = $2, connection_id = $3): retain closure keeps a circuit only if neither (peer, connection) pair matches
+    rbf = ctx.body(RL, r"^libp2p_relay::behaviour::CircuitsTracker::remove_by_connection$")
+    rt = [s for s in rbf.call_sites(r"HashMap::retain$") if P.Norm(rbf).r(rbf.site_expr(s)[2][0]) == "self." + T_MAP]
+    ok = False
+    detail = ""
+    if len(rt) == 1 and ROLE:
+        rb, ups = P.upvar_sources(prog, rbf, rbf.site_expr(rt[0]))
+        ctx.use(rb)
+        RB = P.Norm(rb)
+        upr = [P.Norm(rbf).r(u) for u in ups]
+        drops = [s for s, x in P.ret_exprs(rb) if P.const_val(x) == 0]
+        keeps = [s for s, x in P.ret_exprs(rb) if P.const_val(x) == 1]
+        # facts "circuit.<field> == captured": collect per bool flag local (is_src / is_dst): defs are 0 or Eq(conn field, captured conn) guarded by Eq(peer field, captured peer)
+        pairs = set()
+        flags = {}
+        for l, ds in rb.defs.items():
+            if not isinstance(l, int) or len(ds) != 2:
+                continue
+            vals = [rb.site_expr(mir.Site(rb, d[1], d[2])) for d in ds]
+            cm = [P.cmpnf(v) for v in vals if P.const_val(v) is None]
+            if len(cm) != 1 or cm[0] is None or cm[0][0] != "Eq" or sorted(P.const_val(v) for v in vals if P.const_val(v) is not None) != [0]:
+                continue
+            connf = [a_[2] for a_ in (cm[0][1], cm[0][2]) if a_[0] == "field"]
+            d = [d for d in ds if P.const_val(rb.site_expr(mir.Site(rb, d[1], d[2]))) is None][0]
+            peerf = set()
+            for text, labels, _, c in rb.guards_on_all_paths(d[1]):
+                c2 = P.cmpnf(c)
+                if c2 and c2[0] == "Eq" and set(labels) == {"true"}:
+                    peerf |= {a_[2] for a_ in (c2[1], c2[2]) if a_[0] == "field"}
+            if len(connf) == 1 and len(peerf) == 1:
+                pairs.add((next(iter(peerf)), connf[0]))
+                flags[l] = True
+        want_pairs = {(ROLE["srcp"], ROLE["srcc"]), (ROLE["dstp"], ROLE["dstc"])}
+        ok = pairs == want_pairs and len(drops) == 1 and len(keeps) == 1 and sorted(upr)[:2] == ["$2", "$3"]
+        if ok:
+            for l in flags:
+                ef = P.truth_edges(rb, lambda y, l=l: y[0] == "local" and y[1] == l, False)
+                ok = ok and P.must_pass(rb, keeps[0].bb, ef)
+        detail = "pairs compared: %s (expected %s)" % (sorted(pairs), sorted(want_pairs))
+    ctx.ob("untrack", "remove_by_connection keeps a circuit only if neither end is the closed connection", ok, "%s:%d" % (rbf.file, rbf.line), detail)
+    # ---- reservations: removal sites (inner map of `connections`, or the peer's whole entry)
     rrem = []
     for b in prog.bodies(RL):
         if "behaviour::Behaviour" not in b.npath or "behaviour::handler" in b.npath:
             continue
-        for s in b.call_sites(r"HashMap::remove$|OccupiedEntry::remove$|HashMap::clear$|HashMap::retain$"):
-            r0 = render(b.site_expr(s)[2][0])
-            if r0 in ("std::collections::hash_map::OccupiedEntry::get_mut(peer)", "peer") or "self.connections" in r0:
+        BN = P.Norm(b, ids=True)
+        occ_locals = {l for l in b.names if re.match(r"^std::collections::HashMap::entry\(%s, .*\)@Occupied$" % re.escape(CONN), P.Norm(b).r(b.init_expr(l)))}
+        for s in b.call_sites(r"HashMap::remove$|OccupiedEntry::remove$|OccupiedEntry::remove_entry$|HashMap::clear$|HashMap::retain$"):
+            a0 = b.site_expr(s)[2][0]
+            base = [y for y in mir.walk(a0) if y[0] == "local" and y[1] in occ_locals]
+            if base or (CONN in P.Norm(b).r(a0)):
                 rrem.append(s)
     ctx.floor("untrack", "removals from `connections`", rrem, 4)
     for s in rrem:
         arms = arm_of(h, entries, s.bb) if s.body is h else None
         ok = (s.body is cc) or (arms == ["ReservationTimedOut"])
         ctx.ob("untrack", "reservations are un-tracked only on timeout or connection close", ok, s.loc(), "%s in %s %s" % (strip_generics(s.body.call_name(s.term)).split("::")[-1], s.body.short[-40:], arms or ""))
+
+    def inner_removes(b, key):
+        BN = P.Norm(b)
+        return [s for s in rrem if s.body is b and strip_generics(b.call_name(s.term)).endswith("HashMap::remove") and BN.r(b.site_expr(s)[2][1]) == key]
     t = entries.get("ReservationTimedOut")
     if t is not None:
-        occ = lib.switch_edges_on(h, r"^discr\(std::collections::HashMap::entry\(self\.connections, event_source\)\)$", {"Occupied"})
+        occ = P.variant_edges(h, lambda y: N.r(y) == "std::collections::HashMap::entry(%s, $2)" % CONN, {"Occupied"})
         occ = [(a, b_) for a, b_ in occ if b_ in h.reachable([t])]
-        inner = [s.bb for s in rrem if s.body is h and render(h.site_expr(s)) == "std::collections::HashMap::remove(std::collections::hash_map::OccupiedEntry::get_mut(peer), connection)"]
-        got = lib.count_range(h, [x for _, x in occ], rets, inner) if occ else None
+        got = lib.count_range(h, P.targets(occ), rets, lib.bbs(inner_removes(h, "$3"))) if occ else None
         ctx.ob("untrack", "a timed-out reservation is removed on every path", got == (1, 1), msg="connections[event_source].remove(connection): %s" % (got,))
-    occ = lib.switch_edges_on(cc, r"^discr\(std::collections::HashMap::entry\(self\.connections, arg2\.peer_id\)\)$", {"Occupied"})
-    inner = [s.bb for s in rrem if s.body is cc and render(cc.site_expr(s)) == "std::collections::HashMap::remove(std::collections::hash_map::OccupiedEntry::get_mut(peer), arg2.connection_id)"]
-    got = lib.count_range(cc, [x for _, x in occ], cc.return_blocks(), inner) if occ else None
+    occ = P.variant_edges(cc, lambda y: CC.r(y) == "std::collections::HashMap::entry(%s, $2.peer_id)" % CONN, {"Occupied"})
+    got = lib.count_range(cc, P.targets(occ), cc.return_blocks(), lib.bbs(inner_removes(cc, "$2.connection_id"))) if occ else None
     ctx.ob("untrack", "a closed connection's reservation is removed on every path", got == (1, 1), "%s:%d" % (cc.file, cc.line), "connections[peer].remove(connection_id): %s" % (got,))
     ce = ctx.body(RL, r"^libp2p_relay::behaviour::Behaviour::on_connection_established$")
-    r = [render(ce.site_expr(s)) for s in ce.call_sites(r"HashMap::insert$")]
-    ctx.ob("reservation", "a new connection starts without a reservation", r == ["std::collections::HashMap::insert(std::collections::hash_map::Entry::or_default(std::collections::HashMap::entry(self.connections, arg2.peer_id)), arg2.connection_id, libp2p_relay::behaviour::Reservation::None{})"],
+    r = [P.Norm(ce).site(s) for s in ce.call_sites(r"HashMap::insert$")]
+    ctx.ob("reservation", "a new connection starts without a reservation", r == ["std::collections::HashMap::insert(std::collections::hash_map::Entry::or_default(std::collections::HashMap::entry(%s, $2.peer_id)), $2.connection_id, %s)" % (CONN, NONE_)],
            "%s:%d" % (ce.file, ce.line), str(r)[:200])
